@@ -559,7 +559,10 @@ impl FileHistory {
                     let b = if j < str.len() {
                         str.as_bytes()[j]
                     } else {
-                        0 // unexpected if History::save works properly
+                        // the escaped byte is missing (write cut short):
+                        // keep what has been decoded so far
+                        str = "";
+                        break;
                     };
                     match b {
                         b'n' => {
